@@ -30,7 +30,8 @@ type Control struct {
 	Rule       string   `json:"rule"`
 	Properties []string `json:"properties"`
 	Kind       string   `json:"kind"` // positive | negative
-	Edits      []Edit   `json:"edits"`
+	Edits      []Edit   `json:"edits,omitempty"`
+	Patch      string   `json:"patch,omitempty"` // unified diff (relative to /verif) applied with patch -p1
 	ExpectKey  string   `json:"expect_key,omitempty"` // positive: this obligation must be a hit (prefix match allowed with trailing *)
 	Why        string   `json:"why"`
 }
@@ -115,32 +116,39 @@ func applyEdits(dir string, edits []Edit) (bool, error) {
 	return true, nil
 }
 
-type ruleRun struct {
-	Obs       []Ob
-	Undecided []string
-	LoadErr   string
+type propRun struct {
+	Viols   []violation
+	LoadErr string
 }
 
-func runRuleInScratch(dir, rule string) (*ruleRun, error) {
+// runPropertyInScratch runs one property's quick check (no evidence, no controls) on dir.
+func runPropertyInScratch(dir, prop string) (*propRun, error) {
 	exe, err := os.Executable()
 	if err != nil {
 		return nil, err
 	}
-	cmd := exec.Command(exe, "-rule", rule, "-json")
-	cmd.Env = append(os.Environ(), "KVQL_REPO="+dir, "VERIF_DIR="+verifDir())
-	out, err := cmd.Output()
-	s := string(out)
-	if strings.HasPrefix(s, "LOAD ERROR:") {
-		return &ruleRun{LoadErr: s}, nil
+	cmd := exec.Command(exe, "-property", prop, "-tier", "quick", "-no-evidence", "-json")
+	cmd.Env = append(os.Environ(), "KVQL_REPO="+dir, "VERIF_DIR="+verifDir(), "KVQLCHECK_NO_CONTROLS=1")
+	out, _ := cmd.Output()
+	pr := &propRun{}
+	found := false
+	for _, line := range strings.Split(string(out), "\n") {
+		if strings.HasPrefix(line, "JSON-VIOLATIONS: ") {
+			found = true
+			if err := json.Unmarshal([]byte(strings.TrimPrefix(line, "JSON-VIOLATIONS: ")), &pr.Viols); err != nil {
+				return nil, err
+			}
+		}
 	}
-	if err != nil {
-		return nil, fmt.Errorf("%v: %s", err, s)
+	if !found {
+		return nil, fmt.Errorf("no result from scratch run: %s", string(out))
 	}
-	var res Result
-	if err := json.Unmarshal(out, &res); err != nil {
-		return nil, fmt.Errorf("bad json from scratch run: %v", err)
+	for _, v := range pr.Viols {
+		if v.Kind == "load_error" {
+			pr.LoadErr = v.Detail
+		}
 	}
-	return &ruleRun{Obs: res.Obs, Undecided: res.Undecided}, nil
+	return pr, nil
 }
 
 func keyMatches(pattern, key string) bool {
@@ -166,47 +174,16 @@ func runControls(pd *PropDef) *controlReport {
 			}
 		}
 	}
-	if len(mine) == 0 {
-		return rep
-	}
-	// baseline hits per rule on the unchanged tree (fresh process, same code path as controls)
-	baseline := map[string]map[string]bool{}
 	var mu sync.Mutex
 	sem := make(chan struct{}, 8)
 	var wg sync.WaitGroup
-	rulesNeeded := map[string]bool{}
-	for _, c := range mine {
-		rulesNeeded[c.Rule] = true
-	}
-	for rn := range rulesNeeded {
-		wg.Add(1)
-		go func(rn string) {
-			defer wg.Done()
-			sem <- struct{}{}
-			defer func() { <-sem }()
-			rr, err := runRuleInScratch(repoDir(), rn)
-			mu.Lock()
-			defer mu.Unlock()
-			baseline[rn] = map[string]bool{}
-			if err != nil || rr.LoadErr != "" {
-				rep.Failed = append(rep.Failed, fmt.Sprintf("baseline run of %s failed: %v", rn, err))
-				return
-			}
-			for _, o := range rr.Obs {
-				if !o.OK {
-					baseline[rn][o.Key] = true
-				}
-			}
-		}(rn)
-	}
-	wg.Wait()
 	for _, c := range mine {
 		wg.Add(1)
 		go func(c Control) {
 			defer wg.Done()
 			sem <- struct{}{}
 			defer func() { <-sem }()
-			verdict, msg := runOneControl(c, baseline[c.Rule])
+			verdict, msg := runOneControl(c, pd.ID)
 			mu.Lock()
 			defer mu.Unlock()
 			switch verdict {
@@ -229,7 +206,8 @@ func runControls(pd *PropDef) *controlReport {
 	return rep
 }
 
-func runOneControl(c Control, base map[string]bool) (verdict, msg string) {
+// runOneControl applies the control to a scratch copy and runs property prop on it.
+func runOneControl(c Control, prop string) (verdict, msg string) {
 	tmp, err := os.MkdirTemp("", "kvqlctl-")
 	if err != nil {
 		return "failed", err.Error()
@@ -238,6 +216,17 @@ func runOneControl(c Control, base map[string]bool) (verdict, msg string) {
 	if err := copyTree(repoDir(), tmp); err != nil {
 		return "failed", err.Error()
 	}
+	if c.Patch != "" {
+		pf := c.Patch
+		if !filepath.IsAbs(pf) {
+			pf = filepath.Join(verifDir(), pf)
+		}
+		cmd := exec.Command("patch", "-p1", "-s", "-f", "-i", pf)
+		cmd.Dir = tmp
+		if out, err := cmd.CombinedOutput(); err != nil {
+			return "skipped", "patch no longer applies to the current tree: " + strings.SplitN(string(out), "\n", 2)[0]
+		}
+	}
 	ok, err := applyEdits(tmp, c.Edits)
 	if err != nil {
 		return "failed", err.Error()
@@ -245,35 +234,30 @@ func runOneControl(c Control, base map[string]bool) (verdict, msg string) {
 	if !ok {
 		return "skipped", "edit no longer applies to the current tree"
 	}
-	rr, err := runRuleInScratch(tmp, c.Rule)
+	pr, err := runPropertyInScratch(tmp, prop)
 	if err != nil {
 		return "failed", err.Error()
 	}
-	if rr.LoadErr != "" {
-		return "skipped", "edited tree does not compile: " + strings.SplitN(rr.LoadErr, "\n", 2)[0]
+	if pr.LoadErr != "" {
+		return "skipped", "edited tree does not compile: " + strings.SplitN(pr.LoadErr, "\n", 2)[0]
 	}
-	var newHits []string
-	for _, o := range rr.Obs {
-		if !o.OK && !base[o.Key] {
-			newHits = append(newHits, o.Key)
-		}
-	}
-	for _, u := range rr.Undecided {
-		newHits = append(newHits, "UNDECIDED|"+u)
+	var keys []string
+	for _, v := range pr.Viols {
+		keys = append(keys, v.Key)
 	}
 	switch c.Kind {
 	case "positive":
-		for _, h := range newHits {
-			if c.ExpectKey == "" || keyMatches(c.ExpectKey, h) {
+		for _, v := range pr.Viols {
+			if (c.Rule == "" || c.Rule == "*" || v.Rule == c.Rule) && (c.ExpectKey == "" || keyMatches(c.ExpectKey, v.Key)) {
 				return "fired", ""
 			}
 		}
-		return "failed", fmt.Sprintf("positive control did not fire on %q (new hits: %v)", c.ExpectKey, newHits)
+		return "failed", fmt.Sprintf("positive control did not fire on %q (violations: %v)", c.ExpectKey, keys)
 	case "negative":
-		if len(newHits) == 0 {
+		if len(pr.Viols) == 0 {
 			return "silent", ""
 		}
-		return "failed", fmt.Sprintf("negative control raised %v", newHits)
+		return "failed", fmt.Sprintf("negative control raised %v", keys)
 	}
 	return "failed", "unknown control kind " + c.Kind
 }
